@@ -315,6 +315,11 @@ fn handle(mode: &str, fields: &[&str]) -> String {
             let css = css.replace("&lt;", "<").replace("&gt;", ">").replace("&#13;", "\r").replace("&amp;", "&");
             hex(&css)
         }
+        "stylefmt" => {
+            // how the style sheet prints the two numeric settings
+            let st = parse_settings(fields[0]);
+            format!("{} {}", hex(&format!("{}", st.stroke_width)), hex(&format!("{}", st.font_size)))
+        }
         "escape_line" => {
             escape_line(fields[0].parse().expect("y"), &unhex(fields[1]))
         }
